@@ -33,6 +33,8 @@ struct NodeRt {
     group: KeyspaceGroup<Store>,
     network: RpcNetwork,
     directive: Arc<parking_lot::Mutex<Directive>>,
+    gate: Arc<tokio::sync::Notify>,
+    reached: Arc<std::sync::atomic::AtomicBool>,
     trackers: Vec<Tracker>,
     _server: Server,
 }
@@ -74,13 +76,14 @@ async fn make_node(id: u8, n: usize) -> NodeRt {
     let clock = Clock::new(id);
     let fs = FaultyStore::new(Arc::new(MemStore::default()));
     let directive = fs.next.clone();
+    let (gate, reached) = (fs.gate.clone(), fs.reached.clone());
     let group = KeyspaceGroup::new(Arc::new(fs), clock.clone()).await;
     let network = RpcNetwork::default();
     let addr = free_addr();
     let server = Server::listen(addr).await.expect("listen");
     server.add_service(ConsistencyService::new(group.clone(), network.clone()));
     server.add_service(ReplicationService::new(group.clone()));
-    NodeRt { id, addr, clock, group, network, directive, trackers: (0..n).map(|_| Tracker::default()).collect(), _server: server }
+    NodeRt { id, addr, clock, group, network, directive, gate, reached, trackers: (0..n).map(|_| Tracker::default()).collect(), _server: server }
 }
 
 fn fmt_pairs(mut v: Vec<(u64, HLCTimestamp)>) -> String {
@@ -408,6 +411,62 @@ impl Domain for ClusterDomain {
                     Ok(()) => format!("ok op={} ts={}", self.ops.len() - 1, ts.as_u64()),
                     Err(e) => format!("{} op={} ts={}", e, self.ops.len() - 1, ts.as_u64()),
                 }
+            },
+            // ---- C01 (poller skip rule): a write processed BETWEEN the two actor messages of the GetState handler
+            "staterace" => {
+                // staterace <j> <i> <id1> <id2>: node i is kept busy inside a put of id1 (storage gate); node j's
+                // GetState request arrives (the handler's first actor message queues behind the put); a put of id2
+                // is enqueued behind that; the gate opens.  Mailbox order at i: put id1, handler message 1, put id2,
+                // handler message 2.  Reports the reply's change stamp and set against i's final ones.
+                use std::sync::atomic::Ordering;
+                let (j, i, id1, id2) = (u(1), u(2), p_u64(t[3]), p_u64(t[4]));
+                let ni = &self.nodes[i];
+                let nj = &self.nodes[j];
+                ni.reached.store(false, Ordering::SeqCst);
+                *ni.directive.lock() = Directive::Gate;
+                let (out, d1, d2) = rt.block_on(async {
+                    let ks = ni.group.get_or_create_keyspace(KS).await;
+                    let ts1 = ni.clock.get_time().await;
+                    let doc1 = Document::new(id1, ts1, vec![1u8]);
+                    let ks1 = ks.clone();
+                    let d1 = doc1.clone();
+                    let t1 = tokio::spawn(async move { ks1.send(Set { source: 0, doc: d1, ctx: None, _marker: PhantomData::<Store> }).await });
+                    let mut waited = 0;
+                    while !ni.reached.load(Ordering::SeqCst) && waited < 2000 {
+                        tokio::time::sleep(Duration::from_millis(1)).await;
+                        waited += 1;
+                    }
+                    let mut client = ReplicationClient::<Store>::new(nj.clock.clone(), nj.network.get_or_connect(ni.addr));
+                    let t2 = tokio::spawn(async move { client.get_state(KS).await });
+                    tokio::time::sleep(Duration::from_millis(150)).await;
+                    let ts2 = ni.clock.get_time().await;
+                    let doc2 = Document::new(id2, ts2, vec![2u8]);
+                    let ks3 = ks.clone();
+                    let d2 = doc2.clone();
+                    let t3 = tokio::spawn(async move { ks3.send(Set { source: 0, doc: d2, ctx: None, _marker: PhantomData::<Store> }).await });
+                    tokio::time::sleep(Duration::from_millis(50)).await;
+                    ni.gate.notify_one();
+                    let _ = tmo(t1).await;
+                    let _ = tmo(t3).await;
+                    let reply = tmo(t2).await;
+                    let lfin = ni.group.get_keyspace_info().await.keyspace_timestamps.get(KS).copied();
+                    let out = match reply {
+                        Some(Ok(Ok((l, set)))) => format!(
+                            "race stamp_is_final={} has1={} has2={} ts={} ts2={}",
+                            Some(l) == lfin,
+                            set.get(&id1).is_some(),
+                            set.get(&id2).is_some(),
+                            ts1.as_u64(),
+                            ts2.as_u64()
+                        ),
+                        _ => format!("race failed ts={} ts2={}", ts1.as_u64(), ts2.as_u64()),
+                    };
+                    (out, doc1, doc2)
+                });
+                *ni.directive.lock() = Directive::None;
+                self.ops.push((i, Issued::Put(d1)));
+                self.ops.push((i, Issued::Put(d2)));
+                out
             },
             // ---- C19: the keyspace state a peer obtains
             "fetchstate" => {
